@@ -53,12 +53,16 @@ fn exec_t(seq: &[usize], track: bool) -> Exec {
     };
     for (i, &op) in seq.iter().enumerate() {
         let n = NAMES[op % 5];
-        let before = if track {
-            set.iter().cloned().collect::<Vec<_>>().join(",")
-        } else {
-            String::new()
+        // hash of the reference set before the call (only needed for non-trivial transitions)
+        let before = |set: &BTreeSet<String>| {
+            let mut h: u64 = 0xcbf29ce484222325;
+            for n in set {
+                for b in n.bytes().chain(std::iter::once(b',')) {
+                    h = (h ^ b as u64).wrapping_mul(0x100000001b3);
+                }
+            }
+            h
         };
-        let nt_before = ex.trans.len();
         if op < 5 {
             let r = ns.insert(n);
             let existed = set.contains(n);
@@ -77,7 +81,9 @@ fn exec_t(seq: &[usize], track: bool) -> Exec {
                     // a conflict on a fresh name is not covered by the statement
                     if existed {
                         ex.nontrivial = true;
-                        ex.trans.push(0);
+                        if track {
+                            ex.trans.push(before(&set) ^ (op as u64 + 1).wrapping_mul(0x9e3779b97f4a7c15));
+                        }
                     }
                     ex.results.push("err".into());
                 }
@@ -92,18 +98,16 @@ fn exec_t(seq: &[usize], track: bool) -> Exec {
             }
             if r != n {
                 ex.nontrivial = true;
-                ex.trans.push(0);
+                if track {
+                    ex.trans.push(
+                        before(&set)
+                            ^ (op as u64 + 1).wrapping_mul(0x9e3779b97f4a7c15)
+                            ^ vcommon::fnv(r.as_bytes()).rotate_left(17),
+                    );
+                }
             }
             set.insert(r.clone());
             ex.results.push(r);
-        }
-        if ex.trans.len() > nt_before {
-            let h = if track {
-                vcommon::fnv(format!("{before}|{op}|{}", ex.results[i]).as_bytes())
-            } else {
-                0
-            };
-            *ex.trans.last_mut().unwrap() = h;
         }
         if ex.fail.is_some() {
             return ex;
